@@ -176,8 +176,16 @@ func (e *Exchange) FromStore() bool {
 	}
 	// bodiless results are attributed by their header block only when the
 	// header block is foreign and no own upstream call answered with it.
-	if x := e.XMsg(); x != "" && !e.OwnSerial(x) {
-		return true
+	if x := e.XMsg(); x != "" {
+		if !e.OwnSerial(x) {
+			return true
+		}
+		// own header block: a 304 merged into a stored bodiless response
+		for _, c := range e.Calls() {
+			if c.Serial == x && c.Reply != nil && c.Reply.Status == 304 && e.Status != 304 {
+				return true
+			}
+		}
 	}
 	return false
 }
